@@ -3,7 +3,7 @@ import json
 import os
 import sys
 
-sys.path.insert(0, "/repo")
+sys.path.insert(0, os.environ.get("VERIF_REPO", "/repo"))
 
 SLICE = json.loads(os.environ.get("VERIF_SLICE", "{}"))
 
